@@ -479,6 +479,12 @@ def load_sites():
         return None
     return json.loads(out)
 
+def load_state():
+    rc, out, err = common.run([common.PY, os.path.join(common.VERIF, 'tools', 'translate', 'tagstate2lean.py'), common.REPO, '--json'])
+    if rc != 0:
+        return None
+    return json.loads(out)
+
 def make_capture(R):
     cli = R.cli
     class Capture(cli.Checker):
@@ -951,6 +957,7 @@ def run_e2e_sequences(R, registry, seqs, tmp, res):
             d = os.path.join(tmp, f"s{sq['id']}", str(j))
             os.makedirs(d, exist_ok=True)
             path = os.path.join(d, f['name'])
+            os.makedirs(os.path.dirname(path), exist_ok=True)
             data = bytes.fromhex(f['hex'])
             open(path, 'wb').write(data)
             files.append((path, f, data))
@@ -1064,6 +1071,19 @@ def gen_unit_sequences(chk):
         as_msgid = {'op': 'tagmsg', 'tag': 'duplicate-message-definition', 'path': 'pl.po', 'tpl': '{}', 'msgid': text, 'ctxt': rng.choice([None, text]), 'xs': []}
         order = rng.choice([[first, second], [second, first], [first, as_msgid], [as_msgid, first], [first, second, first, as_msgid]])
         seqs.append({'what': 'message identification as tool text and as file text', 'calls': order})
+    # (b') the same arguments except one: other path, other tag, other template, with / without msgctxt (a memo keyed by too little)
+    for _ in range(200 if chk.thorough else 40):
+        n += 1
+        text = f'{rng.choice(SEQ_BASES)}{n}'
+        toks = [typed_tok(rng.choice(SEQ_KINDS), text)]
+        t1, t2 = rng.sample(SEQ_TAGS, 2)
+        calls = [{'op': 'tag', 'tag': t1, 'path': 'a.po', 'xs': toks}, {'op': 'tag', 'tag': t1, 'path': 'dir/b.po', 'xs': toks}, {'op': 'tag', 'tag': t2, 'path': 'a.po', 'xs': toks},
+                 {'op': 'format', 'tag': t1, 'path': 'a.po', 'xs': toks}, {'op': 'format', 'tag': t2, 'path': 'c.po', 'xs': toks + toks},
+                 {'op': 'msgrepr', 'tpl': '{}', 'msgid': text, 'ctxt': None}, {'op': 'msgrepr', 'tpl': '{}', 'msgid': text, 'ctxt': f'c {n}'},
+                 {'op': 'msgrepr', 'tpl': '{}:', 'msgid': text, 'ctxt': None}, {'op': 'msgrepr', 'tpl': '({})', 'msgid': text, 'ctxt': text},
+                 {'op': 'sformat', 'tpl': '{}', 'xs': toks}, {'op': 'sformat', 'tpl': '{}:', 'xs': toks}, {'op': 'sformat', 'tpl': '{0} {0}', 'xs': toks}]
+        rng.shuffle(calls)
+        seqs.append({'what': 'same text, one other argument changed', 'calls': calls})
     # (c) specials
     sp = []
     for t in SEQ_SPECIALS:
@@ -1181,6 +1201,8 @@ def gen_e2e_sequences(chk, R, count):
             seqs.append({'what': 'one file: its own tool text planted as file text', 'files': [f1], 'planted': planted, 'slots': extra_slots})
             seqs.append({'what': 'A then B (B carries text the tool printed for A)', 'files': [fa, fb], 'planted': planted, 'slots': extra_slots})
             seqs.append({'what': 'B then A (file text first, the same characters as tool text later)', 'files': [fb, fa], 'planted': planted, 'slots': extra_slots})
+            if n % 4 == 0:
+                seqs.append({'what': 'the same catalog under two paths', 'files': [fa, dict(fa, name='copy/pl_PL.po')], 'planted': [], 'slots': extra_slots})
     finally:
         shutil.rmtree(tmp, ignore_errors=True)
     for i, sq in enumerate(seqs):
